@@ -1,5 +1,6 @@
 import NrDaemon.Model.SpanQueue
 import NrDaemon.Gen.SpanQueue
+import NrDaemon.Gen.Skeleton
 /-!
   C16 — span queue applies back-pressure without blocking.
 
@@ -448,3 +449,31 @@ theorem C16_queue_allocation_bounded (configured : Nat) :
     split
     · rename_i h2; omega
     · rfl
+
+/-- `QueueBatch` today: refused after shutdown; dump when the batch does not fit; discard when it still does not fit; a
+non-blocking send, the counter lowered only when the batch went in -/
+def reviewedQueueBatch : List String := [
+  "if to.isShutdownInitiated() {",
+  "if !to.isShutdownComplete() {",
+  "to.closeMessages(…)",
+  "}",
+  "return",
+  "}",
+  "if to.getRemainingQueueCapacity()<count {",
+  "to.emptyQueue(…)",
+  "}",
+  "if to.messagesRemainingCapacity<count {",
+  "to.discardBatch(…)",
+  "return",
+  "}",
+  "b := &<*ast.CompositeLit>",
+  "select {",
+  "case to.messages <- b:",
+  "to.messagesRemainingCapacity -= count",
+  "default:",
+  "to.discardBatch(…)",
+  "}"
+]
+
+/-- **C16 (tie: the producer the machine transcribes is the code's).** -/
+theorem C16_queuebatch_source_tied : Gen.Skeleton.queueBatch = reviewedQueueBatch := rfl
